@@ -176,6 +176,18 @@ def ordering_groups_family(ctx, rng, n, cap):
                 nxt.append(grp["outs"][0])
                 cover[grp["outs"][0]] = set().union(*[cover[m_] for m_ in grp["ins"] + grp["iins"] + grp["oins"]])
             level = nxt
+        # ... or the top of it all is a stamp file: a real command ('touch headers.stamp') that takes a configuration header made
+        # by a write-if-changed (restat) rule and is ordered after the groups.  When the configuration step turns out to change
+        # nothing, the stamp statement is found clean in the middle of the build - while the generators below it still run.
+        stamped = rng.random() < 0.4
+        if stamped:
+            srcs["config.in"] = "// configuration\n"
+            cfg = St("cfg", ["inc/config.h"], ins=["config.in"], restat=True)
+            stamp = St("stamp", ["headers.stamp"], ins=["inc/config.h"])
+            stamp[rng.choice(("oins", "oins", "iins"))] = list(level)
+            stmts += [cfg, stamp]
+            cover["headers.stamp"] = set().union(*[cover[g2] for g2 in level]) | {"inc/config.h"}
+            level = ["headers.stamp"]
         ncons = rng.randint(1, 3)
         cons = []
         for i in range(ncons):
@@ -203,6 +215,14 @@ def ordering_groups_family(ctx, rng, n, cap):
                 srcs[p_] += "// e%d\n" % rng.randint(0, 10 ** 6)
                 steps.append({"op": "write", "path": p_, "content": srcs[p_]})
                 scs.append(copy.deepcopy(sc))
+            if stamped and rng.random() < 0.8:
+                steps.append({"op": "touch", "path": "config.in"})       # the configuration step runs again and changes nothing
+                scs.append(copy.deepcopy(sc))
+                for p_ in sorted(p for p in srcs if p.startswith("app")):
+                    if rng.random() < 0.6:
+                        srcs[p_] += "// e%d\n" % rng.randint(0, 10 ** 6)
+                        steps.append({"op": "write", "path": p_, "content": srcs[p_]})
+                        scs.append(copy.deepcopy(sc))
         tg = rng.choice(([], [], [rng.choice(cons)], list(cons)))
         steps.append({"op": "build", "targets": tg, "j": rng.choice((1, 2, 3, 8)), "k": 1, "sched": {"mode": "all", "cap": cap, "keep_world": True}})
         scs.append(copy.deepcopy(sc))
